@@ -25,7 +25,7 @@ Lemma write_back_receiver a k h s rs a' :
   length (hs a') = length (hs a).
 Proof.
   intros NH NV VO PK WB. unfold write_back in WB. rewrite NH in WB.
-  destruct h as [j|j ph|j p]; [| |contradiction]; simpl in *.
+  destruct h as [j|j ph|j p|j phs]; [| |contradiction|]; simpl in *.
   - inversion WB; subst a'. simpl.
     assert (j < length (cells a))%nat as L by (eapply gets_lt; eauto).
     exists s. split; [apply nth_error_upd_same; auto|]. split; auto. split; auto. split; auto.
@@ -37,23 +37,45 @@ Proof.
     exists (SS (mkc (cpkg c) (cphase c) (crow c'))). split; [apply nth_error_upd_same; auto|].
     simpl in *. split; [auto|]. split; auto. split; [|apply upd_length].
     intros j' N. apply nth_error_upd_other. auto.
+  - destruct (gets (cells a) j) as [old|] eqn:G; simpl in *; [|discriminate].
+    assert (j < length (cells a))%nat as L by (eapply gets_lt; eauto).
+    destruct old as [c|m]; [discriminate|]. inversion VO; subst rs. simpl in PK.
+    destruct s as [c'|m']; [discriminate|]. inversion WB; subst a'. simpl.
+    exists (MS (mkm (mpkg m) (mphases m') (mrows m'))). split; [apply nth_error_upd_same; auto|].
+    simpl in *. split; [auto|]. split; auto. split; [|apply upd_length].
+    intros j' N. apply nth_error_upd_other. auto.
+Qed.
+
+Lemma write_back_lengths a k s a' : write_back a k s = Ok a' ->
+  length (hs a') = length (hs a) /\ length (cells a') = length (cells a).
+Proof.
+  unfold write_back. destruct (nth_error (hs a) k) as [[j|j ph|j p|j phs]|]; intros H; try discriminate.
+  - inversion H; subst; simpl. rewrite upd_length. auto.
+  - destruct (gets (cells a) j) as [[c|m]|]; simpl in H; try discriminate. destruct s; [|discriminate].
+    inversion H; subst; simpl. rewrite !upd_length. auto.
+  - destruct (gets (cells a) j) as [[c|m]|]; simpl in H; try discriminate. destruct s; [|discriminate].
+    destruct (phase_index p (mphases m)); simpl in H; [|discriminate]. inversion H; subst; simpl. rewrite upd_length. auto.
+  - destruct (gets (cells a) j) as [[c|m]|]; simpl in H; try discriminate. destruct s; [discriminate|].
+    inversion H; subst; simpl. rewrite !upd_length. auto.
 Qed.
 
 Lemma tot_same_rows x s c : spkg x = spkg s -> srows x = srows s -> tot x c = tot s c.
 Proof. intros P R. unfold tot. rewrite P, R. reflexivity. Qed.
 
-(* mixing through handles: the receiver's cell ends with the sum of what the inlet handles showed,
-   every handle on that cell sees it (they all read the cell), every other cell is untouched *)
+(* mixing through handles, the receiver's indexer is not replaced: the receiver's cell ends with the sum of
+   what the inlet handles showed, every handle on that cell sees it (they all read the cell), every other
+   cell is untouched *)
 Lemma alias_mix_value a r ins eb hf a' vst h :
   views (cells a) (hs a) = Ok vst -> wf_store vst -> nth_error (hs a) r = Some h ->
   (eb = true -> own_view_only (hs a) vst r ins = false) ->
+  mix_rebind vst r ins eb hf = None ->
   astep a (OMix r ins eb hf) = Ok a' ->
   exists x, nth_error (cells a') (hcell h) = Some x /\
     (forall c, tot x c == qsum (map (tot_at vst c) ins)) /\
     (forall j', j' <> hcell h -> nth_error (cells a') j' = nth_error (cells a) j') /\
     length (hs a') = length (hs a).
 Proof.
-  intros V WS NH OWN H. unfold astep in H. rewrite V in H. cbn [bind] in H.
+  intros V WS NH OWN NRB H. unfold astep in H. rewrite V in H. cbn [bind] in H.
   destruct (safe_op (hs a) vst (OMix r ins eb hf)) eqn:SAFE; cbn [negb] in H; [|discriminate].
   assert (astep_values (hs a) vst (OMix r ins eb hf) = step vst (OMix r ins eb hf)) as AV.
   { unfold astep_values. destruct eb; [rewrite (OWN eq_refl)|]; reflexivity. }
@@ -61,13 +83,44 @@ Proof.
   destruct (mix vst r ins eb hf) as [s|] eqn:MX; cbn [bind] in H; [|discriminate].
   destruct (views_nth _ _ _ V) as [LV NV]. destruct (NV r h NH) as [rs [VO NR]].
   assert (r < length vst)%nat as LR by (apply nth_error_Some; congruence).
-  unfold gets at 1 in H. rewrite nth_error_upd_same in H by auto. cbn [bind] in H.
+  unfold write_target in H. unfold gets at 1 in H. rewrite nth_error_upd_same in H by auto. cbn [bind] in H.
+  cbn [rebind_info] in H. rewrite NRB in H.
   destruct (write_back a r s) as [a1|] eqn:WB; cbn [bind] in H; [|discriminate]. inversion H; subst a1. clear H.
   destruct (mix_result_thm _ _ _ _ _ _ _ WS NR MX) as [PK _].
   assert (match h with HView _ _ => False | _ => True end) as NVW.
-  { simpl in SAFE. apply andb_true_iff in SAFE. destruct SAFE as [S1 _]. unfold is_view in S1. rewrite NH in S1.
+  { simpl in SAFE. apply andb_true_iff in SAFE. destruct SAFE as [_ S1]. unfold is_view in S1. rewrite NH in S1.
     destruct h; auto. discriminate. }
   destruct (write_back_receiver _ _ _ _ _ _ NH NVW VO PK WB) as [x [NX [PX [RX [FR LH]]]]].
   exists x. split; auto. split; auto.
   intros c. rewrite (tot_same_rows x s c PX RX). apply (mix_value_thm _ _ _ _ _ _ WS MX).
+Qed.
+
+(* ... and when the receiver's indexer IS replaced (multi-phase fallback, copy_like from several phases): the
+   receiver moves to new flow data of its own that holds the sum; the handles left on the old data are not
+   updated any more (sharing ends silently) *)
+Lemma alias_mix_value_rebind a r ins eb hf a' vst h resid :
+  views (cells a) (hs a) = Ok vst -> wf_store vst -> nth_error (hs a) r = Some h ->
+  (eb = true -> own_view_only (hs a) vst r ins = false) ->
+  mix_rebind vst r ins eb hf = Some resid ->
+  astep a (OMix r ins eb hf) = Ok a' ->
+  exists x, nth_error (hs a') r = Some (HCell (length (cells a))) /\
+    nth_error (cells a') (length (cells a)) = Some x /\
+    (forall c, tot x c == qsum (map (tot_at vst c) ins)) /\
+    length (cells a') = S (length (cells a)).
+Proof.
+  intros V WS NH OWN RB H. unfold astep in H. rewrite V in H. cbn [bind] in H.
+  destruct (safe_op (hs a) vst (OMix r ins eb hf)) eqn:SAFE; cbn [negb] in H; [|discriminate].
+  assert (astep_values (hs a) vst (OMix r ins eb hf) = step vst (OMix r ins eb hf)) as AV.
+  { unfold astep_values. destruct eb; [rewrite (OWN eq_refl)|]; reflexivity. }
+  rewrite AV in H. simpl in H.
+  destruct (mix vst r ins eb hf) as [s|] eqn:MX; cbn [bind] in H; [|discriminate].
+  destruct (views_nth _ _ _ V) as [LV NV]. destruct (NV r h NH) as [rs [VO NR]].
+  assert (r < length vst)%nat as LR by (apply nth_error_Some; congruence).
+  unfold write_target in H. unfold gets at 1 in H. rewrite nth_error_upd_same in H by auto. cbn [bind] in H.
+  cbn [rebind_info] in H. rewrite RB in H.
+  destruct (write_back a r resid) as [a1|] eqn:WB; cbn [bind] in H; [|discriminate]. inversion H; subst a'. clear H.
+  destruct (write_back_lengths _ _ _ _ WB) as [LH LC]. simpl.
+  exists s. split; [rewrite LC; apply nth_error_upd_same; rewrite map_length, LH; apply nth_error_Some; congruence|].
+  split; [rewrite <- LC; rewrite nth_error_app2 by lia; rewrite Nat.sub_diag; reflexivity|].
+  split; [apply (mix_value_thm _ _ _ _ _ _ WS MX)|]. rewrite app_length. simpl. lia.
 Qed.
